@@ -162,3 +162,17 @@ Check stats_eq_adjin_view :
     r = N.of_nat (length (filter (fun nd => match adj_in a true (snd nd) with [] => false | _ => true end) (t_dests t)))
     /\ c = N.of_nat (length (flat_map (fun nd => adj_in a false (snd nd)) (t_dests t))).
 Print Assumptions stats_eq_adjin_view.
+
+(* The class of the open finding was narrowed: every history in the class used now
+   (Known_C15_session_touch, per session and per destination touched) is in the class
+   used before (Known_C15_two_sessions, per peer and whole table). *)
+Theorem known_class_narrowed :
+  forall f mx shard ops c,
+    Forall (op_wf f) ops -> Forall (ctr_disciplined f mx) ops ->
+    Known_C15_session_touch c shard ops -> Known_C15_two_sessions (f c) shard ops.
+Proof. exact C15_known_class_narrowed. Qed.
+Check known_class_narrowed :
+  forall f mx shard ops c,
+    Forall (op_wf f) ops -> Forall (ctr_disciplined f mx) ops ->
+    Known_C15_session_touch c shard ops -> Known_C15_two_sessions (f c) shard ops.
+Print Assumptions known_class_narrowed.
